@@ -136,6 +136,20 @@ def build_inputs(tier):
             cases.append(("continuation-blank", d))
         for d in mutate.indentation_swaps(mutate.tabs(p)) + mutate.indentation_swaps(p.replace("    ", "        ")):
             cases.append(("indent-swap", d))
+    # a backslash continuation that runs into the end of the input (after a complete construct, inside a block, alone)
+    for p in progs[: (150 if tier == "quick" else 100000)] + nested:
+        cases.append(("continuation-eof", p + "\\\n"))
+        cases.append(("continuation-eof", p.rstrip("\n") + " \\\n"))
+        cases.append(("continuation-eof", p + "    \\\n"))
+        cases.append(("continuation-eof", p.rstrip("\n") + " \\"))
+    # complex-literal patterns: every pairing of number spellings around + and - (CPython demands real +/- imaginary)
+    nums = ["1", "1.5", "1j", "1J", "2.5J", "0x1", "1_0", "1e3", "0j", "x", "'s'"]
+    for a in nums:
+        for sign in ["", "-"]:
+            for op in ["+", "-"]:
+                for b in nums:
+                    cases.append(("complex-pattern", f"match v:\n    case {sign}{a} {op} {b}:\n        pass\n"))
+                    cases.append(("complex-pattern", f"match v:\n    case {{{sign}{a}{op}{b}: y}}:\n        pass\n"))
     for rc in corpus.regress("C02"):
         cases.insert(0, ("regress", rc["src"]))
     out = []
@@ -167,7 +181,7 @@ def run(rep, tier, pool, variants=("shipped",)):
             for (kind, src), o in zip(b, outs):
                 if not isinstance(o, dict):
                     continue
-                if o.get("skip") or o.get("k") in ("hang", "crash", "worker-exc"):
+                if o.get("skip") or o.get("k") in ("hang", "crash", "worker-exc", "not-run"):
                     rep.case(src, False)
                     rep.count("skipped")
                     continue
